@@ -202,6 +202,9 @@ func (p *Program) ruleAppendTypestate(c *Check) {
 						note(x.Pos(), "the destination buffer is handed to "+what+", which is not an append-style continuation (the output would depend on, or overwrite, the prefix)")
 					}
 				case *ssa.Phi:
+					if ssa.Value(x) == v {
+						continue // a loop-carried value that is simply kept (continue): no consumption
+					}
 					for i, e := range x.Edges {
 						if e == v {
 							pred := x.Block().Preds[i]
